@@ -91,9 +91,26 @@ def _work_chunk(chunk):
     return out
 
 
+_ROOT = [None]
+
+
+def _scratch_root():
+    """one scratch tree per run, owned by the main process: workers and fresh processes create their directories inside it (VERIF_SCRATCH_ROOT)
+    and the main process removes the tree when it exits"""
+    if _ROOT[0] is None or not os.path.isdir(_ROOT[0]):
+        import tempfile, shutil, atexit
+        base = '/dev/shm' if os.path.isdir('/dev/shm') and os.access('/dev/shm', os.W_OK) else None
+        _ROOT[0] = tempfile.mkdtemp(prefix='verif-run-', dir=base)
+        os.environ['VERIF_SCRATCH_ROOT'] = _ROOT[0]
+        pid = os.getpid()
+        atexit.register(lambda: os.getpid() == pid and shutil.rmtree(_ROOT[0], True))
+    return _ROOT[0]
+
+
 def explore(modname, tier, seed, budget_s=None, progress=True):
     """Enumerate every case of the module for the tier.  Returns (summary dict, violations list)."""
     boot.bind()
+    _scratch_root()
     mod = importlib.import_module(modname)
     t0 = time.time()
     cases = list(mod.cases(tier))
